@@ -582,6 +582,14 @@ func dumpIface(x interface{}) Dump {
 		return Dump{K: "int", B: be8(int64(v)), E: []DumpEntry{}}
 	case float64:
 		return Dump{K: "dbl", B: be8(int64(math.Float64bits(v))), E: []DumpEntry{}}
+	case float32:
+		return Dump{K: "flt", B: be4(math.Float32bits(v)), E: []DumpEntry{}}
+	case uint16:
+		return Dump{K: "int", B: be8(int64(v)), E: []DumpEntry{}}
+	case uint32:
+		return Dump{K: "int", B: be8(int64(v)), E: []DumpEntry{}}
+	case uint64:
+		return Dump{K: "int", B: be8(int64(v)), E: []DumpEntry{}}
 	case string:
 		return Dump{K: "str", B: B(v), E: []DumpEntry{}}
 	case []byte:
@@ -594,6 +602,12 @@ func dumpIface(x interface{}) Dump {
 		return d
 	}
 	rv := reflect.ValueOf(x)
+	switch rv.Kind() {
+	case reflect.Int, reflect.Int8, reflect.Int16, reflect.Int32, reflect.Int64:
+		return Dump{K: "int", B: be8(rv.Int()), E: []DumpEntry{}}
+	case reflect.Uint, reflect.Uint8, reflect.Uint16, reflect.Uint32, reflect.Uint64:
+		return Dump{K: "int", B: be8(int64(rv.Uint())), E: []DumpEntry{}}
+	}
 	if rv.Kind() == reflect.Ptr {
 		return dumpIface(rv.Elem().Interface())
 	}
@@ -617,6 +631,7 @@ func dumpIface(x interface{}) Dump {
 			} else {
 				kd = dumpIface(k.Interface())
 			}
+			_ = kd
 			d.E = append(d.E, DumpEntry{Key: kd, Val: dumpIface(it.Value().Interface())})
 		}
 		sort.Slice(d.E, func(i, j int) bool {
